@@ -122,7 +122,7 @@ func (cr *cursor) ruleLB25(breakOp *breakOpportunity, triggerNumSequence bool) {
 	}
 	if (br0 == ucd.BreakPR || br0 == ucd.BreakPO) &&
 		(br1 == ucd.BreakOP || br1 == ucd.BreakHY) &&
-		cr.nextLine == ucd.BreakNU {
+		cr.nextLineBase == ucd.BreakNU {
 		*breakOp = breakProhibited
 	}
 	// ( OP | HY ) × NU
@@ -324,6 +324,20 @@ func (cr *cursor) ruleLB1() {
 	}
 }
 
+// isCombiningLine returns true if r, with line break class cl, is resolved by rule LB1
+// to CM or ZWJ, and as such is ignored by rule LB9
+func isCombiningLine(r rune, cl lineBreakClass) bool {
+	switch cl {
+	case ucd.BreakCM, ucd.BreakZWJ:
+		return true
+	case ucd.BreakSA:
+		generalCategory := ucd.LookupType(r)
+		return generalCategory == unicode.Mn || generalCategory == unicode.Mc
+	default:
+		return false
+	}
+}
+
 type numSequenceState uint8
 
 const (
@@ -417,6 +431,13 @@ func (cr *cursor) startIteration(text []rune, i int) {
 	// prevPrevLine and prevLine are handled in endIteration
 	cr.line = cr.nextLine // avoid calling LookupLineBreakClass twice
 	cr.nextLine = ucd.LookupLineBreakClass(cr.next)
+	cr.nextLineBase = cr.nextLine
+	for j := i + 1; j < len(text) && isCombiningLine(text[j], cr.nextLineBase); j++ {
+		cr.nextLineBase = ucd.BreakXX
+		if j+1 < len(text) {
+			cr.nextLineBase = ucd.LookupLineBreakClass(text[j+1])
+		}
+	}
 }
 
 // end the current iteration, computing some of the properties
